@@ -108,6 +108,16 @@ func (st *State) exec(in ssa.Instruction) []*State {
 		}
 		_ = base
 		st.vals[x] = ip.symbolic(x.Type(), st.nm(x), st)
+		// element k of an array value that is the load of a local composite literal all of whose element stores precede the load
+		// in its block (`for _, f := range [...]bool{a, b, c}`): the value stored there
+		if ld, ok := x.X.(*ssa.UnOp); ok && ld.Op == token.MUL && idx.IsConst() {
+			if al, ok := ld.X.(*ssa.Alloc); ok && arrayLiteralStable(al, ld) {
+				if av := st.eval(al); av.K == KPtr && av.O != nil {
+					pv := Val{K: KPtr, O: av.O, Sym: "[" + idx.String() + "]"}
+					st.vals[x] = st.load(st.asAddr(pv, types.NewPointer(x.Type())))
+				}
+			}
+		}
 	case *ssa.Slice:
 		st.vals[x] = st.slice(x)
 	case *ssa.MakeSlice:
@@ -389,6 +399,36 @@ func (st *State) binop(x *ssa.BinOp) Val {
 		}
 	}
 	return ip.symbolic(x.Type(), st.nm(x), st)
+}
+
+// arrayLiteralStable: every use of the local array al is an element store through a constant index that precedes ld in ld's block, or
+// the load ld itself: the array value ld reads is exactly what those stores put there.
+func arrayLiteralStable(al *ssa.Alloc, ld *ssa.UnOp) bool {
+	if _, isArr := al.Type().Underlying().(*types.Pointer).Elem().Underlying().(*types.Array); !isArr || al.Referrers() == nil {
+		return false
+	}
+	for _, r := range *al.Referrers() {
+		switch y := r.(type) {
+		case *ssa.DebugRef:
+		case *ssa.UnOp:
+			if y != ld {
+				return false
+			}
+		case *ssa.IndexAddr:
+			if _, isC := y.Index.(*ssa.Const); !isC || y.Referrers() == nil {
+				return false
+			}
+			for _, rr := range *y.Referrers() {
+				s, isS := rr.(*ssa.Store)
+				if !isS || s.Addr != ssa.Value(y) || s.Block() != ld.Block() || ssau.IndexOf(s) > ssau.IndexOf(ld) {
+					return false
+				}
+			}
+		default:
+			return false
+		}
+	}
+	return true
 }
 
 // wrapCheck: unsigned arithmetic that may wrap is not linear; keep the form only when the result
